@@ -254,7 +254,7 @@ EXTRA11 = {
  "C17": " Round 11: nothing beats a non-positive limit in updateEdgePairMinDistance (D49 repaired).",
  "C18": " Round 11: the twin comparison of the two surface integrals prints expressions completely.",
  "C19": " Round 11: Cap.Union's missing outward rounding is a known finding (D62).",
- "C20": " Round 11: the tessellator's unbounded recursion (Mercator near the poles) is a known finding (D59).",
+ "C20": " Round 11: the tessellator's unbounded recursion (Mercator near the poles) is a known finding (D59); wrapDestination treats x and y alike.",
 }
 
 PENDING = "check for this property is designed (DESIGN.md section 4) but not yet built in this revision; no claim is made"
